@@ -136,6 +136,11 @@ MaskedLabels(d, mask, partial) ==
       interior == {d[p] : p \in PixOf(d) \ mask} \ {0}
   IN IF partial THEN hit ELSE hit \ interior
 
+(* make_source_mask: dilation of the non-zero support by a footprint given as offsets <<dr, dc>> from its centre: the locus of the   *)
+(* points covered by the footprint when its centre lies on a labelled pixel (no reflection), clipped to the array.                 *)
+SupportOf(d) == {p \in PixOf(d) : d[p] # 0}
+Dilate(d, offs) == {p \in PixOf(d) : \E o \in offs : <<p[1] - o[1], p[2] - o[2]>> \in SupportOf(d)}
+
 (************************ effects as functions of an event *****************)
 \* An event is a record with field `op` and the call's arguments; sequences stand for python lists.
 RangeOf(sq) == {sq[i] : i \in 1..Len(sq)}
